@@ -57,10 +57,37 @@ Section Inst.
     && (lbp_pair K <=? 0) && (lbp_hash K <=? 0) && (lbp_semicolon K <=? 0) && (lbp_sym_default K <=? 0)
     && forallb (fun t => match lbp_of E K t with Some l => l <=? 0 | None => false end) prefix_toks.
 
-  Definition table_ok : bool :=
+  Definition core_ok : bool :=
     forallb chk_binop binop_toks && forallb chk_prefix prefix_toks
     && forallb (fun a => forallb (chk_order a) binop_toks) binop_toks
     && chk_names && chk_struct && chk_stop.
+
+  (* ++ and -- : led builds (op left) without recursion; they bind weaker than every binary
+     operator (lbp <= right binding power) except the assignment operators (rbp < lbp) *)
+  Definition lowpost_toks : list tok := map (fun n => TSym n false) Doc.lowpost_names.
+  Definition chk_lowpost : bool :=
+    forallb (fun q =>
+      match led_of E K q, lbp_of E K q with
+      | Some (LPostfix _), Some l =>
+        (0 <? l) && (l <=? maxl)
+        && forallb (fun o => if Doc.prec o <=? Doc.assign_level then R_of o <? l else l <=? R_of o) binop_toks
+      | _, _ => false
+      end) lowpost_toks.
+
+  (* if: Expression(r1) for the condition with r1 below every operator, Expression(0) for the
+     branches; `if` and `else` do not bind to the left *)
+  Definition if_cond_level : Z := match nud_of E Doc.if_tok with NIf r1 _ _ => r1 | _ => 0 end.
+  Definition chk_if : bool :=
+    match nud_of E Doc.if_tok with
+    | NIf r1 r2 r3 =>
+      (0 <=? r1) && (r1 <=? maxr) && (r2 =? 0) && (r3 =? 0)
+      && forallb (fun o => r1 <? L_of o) binop_toks
+    | _ => false
+    end
+    && match lbp_of E K Doc.else_tok with Some l => l <=? 0 | None => false end
+    && match lbp_of E K Doc.if_tok with Some l => l <=? 0 | None => false end.
+
+  Definition table_ok : bool := core_ok && chk_lowpost && chk_if.
 
   Hypothesis OK : table_ok = true.
 
@@ -71,6 +98,8 @@ Section Inst.
   Proof.
     pose proof OK as H. unfold table_ok in H.
     apply andb_prop in H. destruct H as (H & _).
+    apply andb_prop in H. destruct H as (H & _). unfold core_ok in H.
+    apply andb_prop in H. destruct H as (H & _).
     apply andb_prop in H. destruct H as (H & H5).
     apply andb_prop in H. destruct H as (H & H4).
     apply andb_prop in H. destruct H as (H & H3).
@@ -79,6 +108,20 @@ Section Inst.
   Qed.
 
   Lemma ok_stop : chk_stop = true.
+  Proof.
+    pose proof OK as H. unfold table_ok in H.
+    apply andb_prop in H. destruct H as (H & _).
+    apply andb_prop in H. destruct H as (H & _). unfold core_ok in H.
+    apply andb_prop in H. tauto.
+  Qed.
+
+  Lemma ok_lowpost : chk_lowpost = true.
+  Proof.
+    pose proof OK as H. unfold table_ok in H.
+    apply andb_prop in H. destruct H as (H & _). apply andb_prop in H. tauto.
+  Qed.
+
+  Lemma ok_if : chk_if = true.
   Proof. pose proof OK as H. unfold table_ok in H. apply andb_prop in H. tauto. Qed.
 
   Lemma level_of_in : forall n ls i x, Doc.level_of n ls i = Some x -> In n (concat (map fst ls)).
@@ -307,5 +350,206 @@ Section Inst.
               Doc.is_operand Doc.is_prefix Doc.is_binop Doc.is_postfix Doc.prec Doc.rassoc L_of R_of maxl maxr
               I_operand I_prefix I_binop I_postfix I_order I_uniform I_max I_binop_pos
               is_semi is_label_for I_start I_semi I_label _ ts xs H). lia.
+  Qed.
+
+  (* ====================================================================================== *)
+  (* extensions: ++ / --, if / else, selectors                                               *)
+  Notation nf := (fun _ : tok => false).
+
+  Lemma lowpost_in : forall q, Doc.is_lowpost q = true -> In q lowpost_toks.
+  Proof.
+    intros t H; destruct t as [n c|n|i|i|i|i|i|i|i| | |i|i]; try destruct c;
+      cbv beta iota delta [Doc.is_lowpost] in H; try discriminate.
+    apply existsb_exists in H. destruct H as (m & Hm & He).
+    apply String.eqb_eq in He. subst. now apply (in_map (fun m => TSym m false)).
+  Qed.
+
+  Lemma I_lowpost_all : forall q, Doc.is_lowpost q = true ->
+    (lbp_of E K q = Some (L_of q) /\ (exists h, led_of E K q = Some (LPostfix h)) /\ 0 < L_of q /\ L_of q <= maxl)
+    /\ (forall o, Doc.is_binop o = true ->
+          (Doc.prec o <= Doc.assign_level -> R_of o < L_of q) /\ (Doc.assign_level < Doc.prec o -> L_of q <= R_of o)).
+  Proof.
+    intros q Hq. apply lowpost_in in Hq.
+    pose proof ok_lowpost as H. unfold chk_lowpost in H. rewrite forallb_forall in H. specialize (H _ Hq).
+    unfold L_of.
+    destruct (led_of E K q) as [[r h|h| | |]|]; try discriminate.
+    destruct (lbp_of E K q) as [l|]; try discriminate.
+    apply andb_prop in H. destruct H as (H & H3). apply andb_prop in H. destruct H as (H1 & H2).
+    apply Z.ltb_lt in H1. apply Z.leb_le in H2. split.
+    - repeat split; eauto.
+    - intros o Ho. apply binop_in in Ho. rewrite forallb_forall in H3. specialize (H3 _ Ho).
+      destruct (Doc.prec o <=? Doc.assign_level) eqn:E1.
+      + apply Z.leb_le in E1. apply Z.ltb_lt in H3. split; intros; lia.
+      + apply Z.leb_gt in E1. apply Z.leb_le in H3. split; intros; lia.
+  Qed.
+
+  Lemma I_lowpost : forall q, Doc.is_lowpost q = true ->
+    lbp_of E K q = Some (L_of q) /\ (exists h, led_of E K q = Some (LPostfix h)) /\ 0 < L_of q /\ L_of q <= maxl.
+  Proof. intros q Hq. apply (I_lowpost_all q Hq). Qed.
+
+  Lemma classify_parts : forall ts a,
+    classify tok Doc.is_operand Doc.is_prefix Doc.is_binop Doc.is_postfix ts = Some a ->
+    unit_ok tok Doc.is_operand Doc.is_prefix Doc.is_postfix (fst a) /\
+    tail_ok tok Doc.is_operand Doc.is_prefix Doc.is_binop Doc.is_postfix (snd a) /\ ts = alt_tokens tok a.
+  Proof.
+    unfold classify; intros.
+    destruct (take_expr tok Doc.is_operand Doc.is_prefix Doc.is_binop Doc.is_postfix ts) as [[a' r]|] eqn:Et; [|discriminate].
+    destruct r; [|discriminate]. inversion H; subst.
+    apply take_expr_spec in Et. destruct Et as (E1 & E2 & E3). rewrite app_nil_r in E3. auto.
+  Qed.
+
+  Lemma no_assign_ops : forall (a : alt tok) o,
+    tail_ok tok Doc.is_operand Doc.is_prefix Doc.is_binop Doc.is_postfix (snd a) ->
+    Doc.no_assign a = true -> In o (ops tok (snd a)) ->
+    Doc.is_binop o = true /\ Doc.assign_level < Doc.prec o.
+  Proof.
+    intros a o Hl Hn Ho. unfold ops in Ho. apply in_map_iff in Ho. destruct Ho as ([o' uo] & E1 & E2).
+    cbn in E1. subst o'. split.
+    - unfold tail_ok in Hl. rewrite Forall_forall in Hl. apply (Hl _ E2).
+    - unfold Doc.no_assign in Hn. rewrite forallb_forall in Hn. specialize (Hn _ E2). cbn in Hn.
+      now apply Z.ltb_lt in Hn.
+  Qed.
+
+  (* E ++  (E without a top-level assignment operator): the whole of E is the operand *)
+  Theorem inst_postfix : forall eof ts a q,
+    classify tok Doc.is_operand Doc.is_prefix Doc.is_binop Doc.is_postfix ts = Some a ->
+    Doc.no_assign a = true -> Doc.is_lowpost q = true ->
+    m_expr E K nf eof (fuel_for tok (ts ++ [q])) 0 (ts ++ [q])
+    = ROk (Post q (split_alt tok Doc.prec Doc.rassoc a), []).
+  Proof.
+    intros eof ts a q Hc Hn Hq. apply classify_parts in Hc. destruct Hc as (Hu & Hl & Hts). subst ts.
+    destruct (I_lowpost_all q Hq) as ((_ & _ & Hpos & _) & Hrel).
+    unfold m_expr.
+    apply (expr_postfix tok (lbp_of E K) (nud_of E) (led_of E K) is_else nf eof
+             Doc.is_operand Doc.is_prefix Doc.is_binop Doc.is_postfix Doc.prec Doc.rassoc L_of R_of maxl maxr
+             I_operand I_prefix I_binop I_postfix I_order I_uniform Doc.is_lowpost I_lowpost a q 0 [] _ Hu Hl Hq).
+    - destruct I_max. lia.
+    - exact Hpos.
+    - intros o Ho. destruct (no_assign_ops a o Hl Hn Ho) as (Hb & Hp). split.
+      + apply I_binop_pos; auto.
+      + apply (Hrel o Hb); auto.
+    - exact I.
+    - apply le_n.
+  Qed.
+
+  (* lhs = E ++ : the postfix operator applies inside the right operand of the assignment *)
+  Theorem inst_assign_postfix : forall eof us u asg ts a q,
+    take_unit tok Doc.is_operand Doc.is_prefix Doc.is_postfix us = Some (u, []) ->
+    Doc.is_binop asg = true -> Doc.prec asg <= Doc.assign_level ->
+    classify tok Doc.is_operand Doc.is_prefix Doc.is_binop Doc.is_postfix ts = Some a ->
+    Doc.no_assign a = true -> Doc.is_lowpost q = true ->
+    m_expr E K nf eof (fuel_for tok (us ++ asg :: ts ++ [q])) 0 (us ++ asg :: ts ++ [q])
+    = ROk (Bin asg (unit_tree tok u) (Post q (split_alt tok Doc.prec Doc.rassoc a)), []).
+  Proof.
+    intros eof us u asg ts a q Hus Hasg Hpa Hc Hn Hq.
+    apply take_unit_spec in Hus. destruct Hus as (Hu0 & Hus). rewrite app_nil_r in Hus. subst us.
+    apply classify_parts in Hc. destruct Hc as (Hu & Hl & Hts). subst ts.
+    destruct (I_lowpost_all q Hq) as (_ & Hrel).
+    destruct (Hrel asg Hasg) as (Hra & _). specialize (Hra Hpa).
+    unfold m_expr.
+    apply (assign_postfix tok (lbp_of E K) (nud_of E) (led_of E K) is_else nf eof
+             Doc.is_operand Doc.is_prefix Doc.is_binop Doc.is_postfix Doc.prec Doc.rassoc L_of R_of maxl maxr
+             I_operand I_prefix I_binop I_postfix I_order I_uniform I_max I_binop_pos Doc.is_lowpost I_lowpost
+             u asg a q [] _ Hu0 Hasg Hra Hu Hl Hq).
+    - intros o Ho. destruct (no_assign_ops a o Hl Hn Ho) as (Hb & Hp).
+      destruct (Hrel o Hb) as (_ & H2). specialize (H2 Hp).
+      destruct (I_binop o Hb) as (_ & _ & _ & Hr2 & _). split; lia.
+    - exact I.
+    - apply le_n.
+  Qed.
+
+  (* ---- if / else ---- *)
+  Definition Parses (eof : option tok) (P : list tok -> Prop) (r : Z) (ts : list tok) (x : tree tok) : Prop :=
+    PA tok (lbp_of E K) (nud_of E) (led_of E K) is_else nf eof P r ts x.
+  Definition AnyTail : list tok -> Prop := Any tok.
+  Definition NoElse (eof : option tok) : list tok -> Prop := no_else tok is_else eof.
+  (* the first token does not bind to the left *)
+  Definition starts_stmt (ts : list tok) : bool :=
+    match ts with
+    | t :: _ => match lbp_of E K t with Some l => l <=? 0 | None => false end
+    | [] => false
+    end.
+
+  Lemma starts_stops0 : forall ts, starts_stmt ts = true -> stops0 tok (lbp_of E K) ts /\ ts <> [].
+  Proof.
+    intros [|t r] H; [discriminate|]. unfold starts_stmt in H. split; [|discriminate].
+    unfold stops0. destruct (lbp_of E K t) as [l|]; [|discriminate]. exists l. split; auto. now apply Z.leb_le.
+  Qed.
+
+  Lemma I_if : nud_of E Doc.if_tok = NIf if_cond_level 0 0 /\ 0 <= if_cond_level <= maxr /\
+               (forall o, Doc.is_binop o = true -> if_cond_level < L_of o) /\
+               stops0 tok (lbp_of E K) [Doc.else_tok].
+  Proof.
+    pose proof ok_if as H. unfold chk_if in H. unfold if_cond_level.
+    apply andb_prop in H. destruct H as (H & _). apply andb_prop in H. destruct H as (H & He).
+    destruct (nud_of E Doc.if_tok) as [|? ?|r1 r2 r3| |?]; try discriminate.
+    apply andb_prop in H. destruct H as (H & H5). apply andb_prop in H. destruct H as (H & H4).
+    apply andb_prop in H. destruct H as (H & H3). apply andb_prop in H. destruct H as (H1 & H2).
+    apply Z.leb_le in H1, H2. apply Z.eqb_eq in H3, H4. subst. repeat split; auto.
+    - intros o Ho. apply binop_in in Ho. rewrite forallb_forall in H5. specialize (H5 _ Ho). now apply Z.ltb_lt in H5.
+    - unfold stops0. destruct (lbp_of E K Doc.else_tok) as [l|]; [|discriminate]. exists l. split; auto. now apply Z.leb_le.
+  Qed.
+
+  (* every expression of the documented grammar parses, at the level of an if condition too *)
+  Theorem inst_doc_parses : forall eof P r ts a,
+    classify tok Doc.is_operand Doc.is_prefix Doc.is_binop Doc.is_postfix ts = Some a ->
+    0 <= r <= if_cond_level -> Parses eof P r ts (split_alt tok Doc.prec Doc.rassoc a).
+  Proof.
+    intros eof P r ts a Hc Hr. apply classify_parts in Hc. destruct Hc as (Hu & Hl & Hts). subst ts.
+    destruct I_if as (_ & Hlev & Hlt & _).
+    apply (doc_PA tok (lbp_of E K) (nud_of E) (led_of E K) is_else nf eof
+             Doc.is_operand Doc.is_prefix Doc.is_binop Doc.is_postfix Doc.prec Doc.rassoc L_of R_of maxl maxr
+             I_operand I_prefix I_binop I_postfix I_order I_uniform I_max a r P Hu Hl).
+    - lia.
+    - intros o Ho. assert (Hb := ops_binop _ _ _ _ _ _ _ Hl Ho). specialize (Hlt o Hb). lia.
+  Qed.
+
+  (* if C T else X : for all nestings (X may be another if form: else-if chains) *)
+  Theorem inst_if_else : forall eof P C c T t X x rbp,
+    0 <= rbp ->
+    Parses eof AnyTail if_cond_level C c -> Parses eof AnyTail 0 T t -> Parses eof P 0 X x ->
+    starts_stmt T = true ->
+    Parses eof P rbp (Doc.if_tok :: C ++ T ++ Doc.else_tok :: X)
+           (Cond Doc.if_tok c t (Some (Doc.else_tok, x))).
+  Proof.
+    intros eof P C c T t X x rbp Hr HC HT HX HsT.
+    destruct I_if as (Hn & _ & _ & Hse). destruct (starts_stops0 T HsT) as (Hs0 & Hne).
+    apply (if_else_PA tok (lbp_of E K) (nud_of E) (led_of E K) is_else nf eof maxl maxr I_max
+             P Doc.if_tok if_cond_level 0 0 C c T t Doc.else_tok X x rbp Hn Hr HC HT HX); auto.
+  Qed.
+
+  Theorem inst_if_noelse : forall eof C c T t rbp,
+    0 <= rbp ->
+    Parses eof AnyTail if_cond_level C c -> Parses eof (NoElse eof) 0 T t ->
+    starts_stmt T = true ->
+    Parses eof (NoElse eof) rbp (Doc.if_tok :: C ++ T) (Cond Doc.if_tok c t None).
+  Proof.
+    intros eof C c T t rbp Hr HC HT HsT.
+    destruct I_if as (Hn & _ & _ & _). destruct (starts_stops0 T HsT) as (Hs0 & Hne).
+    apply (if_noelse_PA tok (lbp_of E K) (nud_of E) (led_of E K) is_else nf eof maxl maxr I_max
+             Doc.if_tok if_cond_level 0 0 C c T t rbp Hn Hr HC HT); auto.
+  Qed.
+
+  (* lhs op Y  where Y parses at every level (an if form): x = if a b else c *)
+  Theorem inst_binop_then : forall eof P us u o Y y,
+    take_unit tok Doc.is_operand Doc.is_prefix Doc.is_postfix us = Some (u, []) ->
+    Doc.is_binop o = true -> (forall r, 0 <= r -> Parses eof P r Y y) ->
+    Parses eof P 0 (us ++ o :: Y) (Bin o (unit_tree tok u) y).
+  Proof.
+    intros eof P us u o Y y Hus Ho HY.
+    apply take_unit_spec in Hus. destruct Hus as (Hu0 & Hus). rewrite app_nil_r in Hus. subst us.
+    destruct (I_binop o Ho) as (_ & _ & _ & _ & _ & Hr0 & _).
+    apply (binop_then_PA tok (lbp_of E K) (nud_of E) (led_of E K) is_else nf eof
+             Doc.is_operand Doc.is_prefix Doc.is_binop Doc.is_postfix Doc.rassoc L_of R_of maxl maxr
+             I_operand I_prefix I_binop I_postfix I_max I_binop_pos P u o Y y Hu0 Ho (HY _ Hr0)).
+  Qed.
+
+  (* a Parses fact is a statement about the model run with the runner's fuel *)
+  Lemma Parses_run : forall eof P r ts x,
+    Parses eof P r ts x -> P [] ->
+    m_expr E K nf eof (fuel_for tok ts) r ts = ROk (x, []).
+  Proof.
+    intros eof P r ts x H HP. specialize (H [] I HP (fuel_for tok ts) (le_n _)).
+    rewrite app_nil_r in H. exact H.
   Qed.
 End Inst.
